@@ -173,6 +173,10 @@ class Env:
         self.transports = []
         self.socks = []
         self.unstalled = False
+        self.trace = {"attempts": [], "established": [], "delivered": [], "eof_at": None, "abandoned": []}
+
+    def now(self):
+        return int(round(self.loop.time() * 1000))
 
     def owner(self):
         t = asyncio.current_task()
@@ -206,9 +210,11 @@ class Env:
         if self.owner() == "R" and not self.unstalled:
             fut = self.loop.create_future()
             self.conn_futs.append(fut)
+            self.trace["attempts"].append(self.now())
             try:
                 await fut
             except BaseException:
+                self.trace["abandoned"].append(self.now())
                 sock.close()
                 raise
         return sock
@@ -227,6 +233,8 @@ class Env:
         if tr.owner == "R" and self.sc.get("wresume") is not None and not self.unstalled:
             tr.pause_on_write = True
         self.transports.append(tr)
+        if tr.owner == "R":
+            self.trace["established"].append(self.now())
         proto.connection_made(tr)
         return tr, proto
 
@@ -346,7 +354,10 @@ def run_scenario(sc):
                         # the scripted exchange is over: whoever reuses this connection gets answers
                         tr.answered = bytes(tr.out).count(b"\r\n\r\n")
                         tr.auto = True
-                    tr.feed(bytes.fromhex(hx))
+                    if tr.feed(bytes.fromhex(hx)):
+                        env.trace["delivered"].append(ms(loop))
+                        if last:
+                            env.trace["eof_at"] = ms(loop)
             events.append((t, 7 + j, deliver))
         if sc.get("cancel") is not None:
             def cancel_now():
@@ -400,6 +411,10 @@ def run_scenario(sc):
             dns_waiters=sum(len(v) for v in conn._throttle_dns_futures.values()),
             lookups=len(lookup_tasks),
             dns_calls=env.dns_calls,
+            trace=env.trace,
+            eff_total=None if tmo.total is None else int(round(tmo.total * 1000)),
+            c_waits_dns=1 if (co in ("dnsfirst", "dnswait") and res["C"] is None and "C" in tasks
+                              and conn._throttle_dns_futures) else 0,
         )
         # ---------------------------------------------------------------- follow-up: peer un-stalls
         env.unstalled = True
